@@ -1,7 +1,6 @@
 package keeper
 
 import (
-	"bytes"
 	"context"
 	"errors"
 	"fmt"
@@ -47,9 +46,6 @@ func (k Keeper) DivvyingTips(ctx context.Context, reporterAddr sdk.AccAddress, r
 		delTotalDec := delAddrs.Total.ToLegacyDec()
 		delegatorShare := netReward.Mul(delAmountDec).Quo(delTotalDec)
 
-		if bytes.Equal(del.DelegatorAddress, reporterAddr.Bytes()) {
-			delegatorShare = delegatorShare.Add(commission)
-		}
 		// get selector's previous tips
 		oldTips, err := k.SelectorTips.Get(ctx, del.DelegatorAddress)
 		if err != nil {
@@ -68,7 +64,19 @@ func (k Keeper) DivvyingTips(ctx context.Context, reporterAddr sdk.AccAddress, r
 		}
 	}
 
-	return nil
+	// the commission is credited to the reporter exactly once, however many (or few) of the
+	// recorded token origins are the reporter's own delegations
+	if commission.IsZero() {
+		return nil
+	}
+	oldTips, err := k.SelectorTips.Get(ctx, reporterAddr.Bytes())
+	if err != nil {
+		if !errors.Is(err, collections.ErrNotFound) {
+			return err
+		}
+		oldTips = math.LegacyZeroDec()
+	}
+	return k.SelectorTips.Set(ctx, reporterAddr.Bytes(), oldTips.Add(commission))
 }
 
 // ReturnSlashedTokens returns the slashed tokens to the delegators,
